@@ -31,6 +31,27 @@ if kill:
 
     RL.wfa_alignment = wrapped
 
+delay = os.environ.get("VERIF_REALMP_DELAY")
+if delay:
+    # widen the race window of the collector with REAL processes: every worker waits before its first result,
+    # so the parent's queue read times out, and the liveness check is slow, so the workers have finished by then
+    wd, pd = map(float, delay.split(":"))
+    import time
+
+    _orig_w = RL.wfa_alignment
+    _orig_alive = RL.one_is_alive
+
+    def slow_worker(seq_batch, qu):
+        time.sleep(wd)
+        _orig_w(seq_batch, qu)
+
+    def slow_alive(processes):
+        time.sleep(pd)
+        return _orig_alive(processes)
+
+    RL.wfa_alignment = slow_worker
+    RL.one_is_alive = slow_alive
+
 from gaftools.__main__ import main
 
 main(["realign", gaf, gfa, fa, "-o", out, "-c", cores])
